@@ -67,10 +67,14 @@ impl MerkleTree {
         r is Ok && changeset.upgraded ==> final(self).roots == changeset.roots && final(self).length == changeset.length
             && final(self).byte_length == changeset.byte_length && final(self).fork == changeset.fork && final(self).signature == changeset.signature,
         r is Ok && !changeset.upgraded ==> final(self).roots == old(self).roots && final(self).length == old(self).length
-            && final(self).byte_length == old(self).byte_length && final(self).fork == old(self).fork && final(self).signature == old(self).signature
+            && final(self).byte_length == old(self).byte_length && final(self).fork == old(self).fork && final(self).signature == old(self).signature,
+        // C03 / C01: every verified node of the changeset - leaf, siblings, computed parents - becomes a pending tree node,
+        // whether or not the changeset upgrades the tree (a block received without an upgrade carries nodes only)
+        r is Ok ==> forall|i: int| 0 <= i < changeset.nodes@.len() ==> final(self).unflushed@.contains_key((#[trigger] changeset.nodes@[i]).index)
     sub `for node in changeset\.nodes \{` => `for node in it: changeset.nodes {`
     loop 1:
         invariant
+            forall|j: int| 0 <= j < it.index@ ==> self.unflushed@.contains_key((#[trigger] changeset.nodes@[j]).index),
             self.roots == (if changeset.upgraded { changeset.roots } else { old(self).roots }),
             self.length == (if changeset.upgraded { changeset.length } else { old(self).length }),
             self.byte_length == (if changeset.upgraded { changeset.byte_length } else { old(self).byte_length }),
